@@ -10,6 +10,7 @@ harness/cmd/c09                   driver: real CP + scripted finite CUs / real e
 """
 import json
 import os
+import re
 
 import common
 import vlib
@@ -20,7 +21,9 @@ RULE = ('cases = environment runs (TLC -simulate behaviours of DispatchScen, the
         'distinct port-event traces; non-trivial = a trace in which a work-group was mapped after a completion was '
         'consumed (returned resources reused) and two kernels were in flight together or completions arrived out of '
         'map order or batched')
-TSPEC = {'dirs': ['dispatch'], 'module': 'DispatchTrace.tla', 'cfg': 'DispatchTrace.cfg'}
+# JVM heaps are capped: the machine is shared and an uncapped JVM grows to a quarter of the RAM before collecting
+TSPEC = {'dirs': ['dispatch'], 'module': 'DispatchTrace.tla', 'cfg': 'DispatchTrace.cfg', 'heap': '3g'}
+MC_HEAP = '4g'
 
 # model units -> hardware units (model granularity GS=2 GV=2 GL=4, hardware 16/4/256)
 SC_S, SC_V, SC_L = 8, 2, 64
@@ -108,26 +111,38 @@ def nontrivial(recs):
 
 
 def validate(ctx, trace, info):
-    """Traces that end in a Panic are examined one by one (each is a rejection to classify); the rest of the
-    file goes through the shared bisecting flow."""
+    """Traces without a Panic go through the shared bisecting flow.  A trace that ends in a Panic is a rejection to
+    classify (DispatchTrace has no action for a Panic line): the first one of a file is shown to TLC as it is, for
+    the others TLC checks the prefix before the Panic (appended to the calm part) and the Panic line is the
+    rejection."""
     parts = vlib.split_traces(trace)
-    calm = [p for p in parts if not any(r['e'] == 'Panic' for r in p[1])]
-    loud = [p for p in parts if any(r['e'] == 'Panic' for r in p[1])]
+    calm, loud = [], []
+    for p in parts:
+        cut = [i for i, r in enumerate(p[1]) if r['e'] == 'Panic']
+        if not cut:
+            calm.append(p[1])
+        else:
+            loud.append((p[1], cut[0]))
+            if len(loud) > 1:
+                calm.append(p[1][:cut[0]])
     if calm:
         f = trace + '.calm'
-        vlib.write_ndjson(f, [r for _, recs in calm for r in recs])
+        vlib.write_ndjson(f, [r for recs in calm for r in recs])
         common.validate_and_triage(ctx, dict(TSPEC, signature=signature), f, info)
-    for n, (_, recs) in enumerate(loud):
-        sub = os.path.join(ctx.scratch, 'panic_%d.ndjson' % n)
-        vlib.write_ndjson(sub, recs)
-        v = ctx.validate_trace(TSPEC['dirs'], TSPEC['module'], TSPEC['cfg'], sub)
-        if v['accepted']:
-            raise vlib.Infra('a trace with a Panic event was accepted by DispatchTrace')
-        at = v['highwater'] or 1
+    for n, (recs, cut) in enumerate(loud):
+        at = cut + 1
+        violated = []
+        if n == 0:
+            sub = os.path.join(ctx.scratch, 'panic_%d.ndjson' % n)
+            vlib.write_ndjson(sub, recs)
+            v = ctx.validate_trace(TSPEC['dirs'], TSPEC['module'], TSPEC['cfg'], sub, heap=TSPEC['heap'])
+            if v['accepted']:
+                raise vlib.Infra('a trace with a Panic event was accepted by DispatchTrace')
+            at, violated = v['highwater'] or 1, v['violated']
         ev = recs[min(at, len(recs)) - 1]
-        sig = {'kind': 'trace_rejected', 'violated': ','.join(sorted(set(v['violated']))) or 'no_matching_action',
+        sig = {'kind': 'trace_rejected', 'violated': ','.join(sorted(set(violated))) or 'no_matching_action',
                'event': ev.get('e')}
-        sig.update(signature(recs, at, v))
+        sig.update(signature(recs, at, {'violated': violated}))
         what = 'C09: real-code trace not a behaviour of DispatchTrace.tla: %s at event #%d %s' % (
             sig['violated'], at, json.dumps(ev)[:300])
         new = ctx.report_failure(what, sig, {'driver': info, 'trace_spec': [TSPEC['dirs'], TSPEC['module'], TSPEC['cfg']],
@@ -257,6 +272,19 @@ def build_with_hook(ctx):
     return out
 
 
+def simulate(ctx, dirs, module, cfg, num, depth, timeout):
+    """ctx.simulate with a capped heap."""
+    res = ctx.tlc(dirs, module, cfg, workers=1, timeout=timeout, simulate='file=beh,num=%d' % num, depth=depth,
+                  seed=ctx.seed, kind='simulate', heap='2g')
+    if res.violated:
+        raise vlib.Infra('simulation of %s violated %s\n%s' % (module, res.violated, res.out[-2000:]))
+    behs = [vlib.tlaval.parse_sim_file(os.path.join(res.dir, f)) for f in sorted(os.listdir(res.dir)) if f.startswith('beh_')]
+    if not behs:
+        raise vlib.Infra('simulation of %s produced no behaviour:\n%s' % (module, res.out[-2000:]))
+    ctx.cov['transitions'] += res.generated
+    return behs
+
+
 def drive(ctx, drv, args, out):
     p, stats = common.run_driver(ctx, drv, args + ['-out', out])
     if stats is None:
@@ -264,33 +292,48 @@ def drive(ctx, drv, args, out):
     return stats
 
 
+def watch_first_fit(ctx):
+    """DispatchTrace prints <<"FIRSTFIT", conforming, examined>> at the end of an accepted trace file: how many
+    MapWGReq of the real CP carry exactly the offsets CUResource.tla's first fit predicts (model fidelity, no verdict)."""
+    tally = {'conforming': 0, 'examined': 0}
+    orig = ctx.validate_trace
+
+    def wrapped(*a, **kw):
+        v = orig(*a, **kw)
+        m = re.search(r'<<"FIRSTFIT", (\d+), (\d+)>>', v['res'].out)
+        if v['accepted'] and m:
+            tally['conforming'] += int(m.group(1))
+            tally['examined'] += int(m.group(2))
+        return v
+    ctx.validate_trace = wrapped
+    return tally
+
+
 def run(ctx, selftest=False):
     thorough = ctx.tier == 'thorough'
     drv = ctx.go_build('c09')
     D = ['dispatch']
+    ff = watch_first_fit(ctx)
 
     # 1. design-level model checking
     nomc = bool(os.environ.get('VERIF_C09_NOMC'))      # development aid (mutant loops): the model does not depend on /repo
     if not nomc:
-        # (-coverage doubles the run time: the vacuity reading is taken in the thorough tier, on the larger model)
-        r = ctx.tlc_expect_ok(D, 'MC_Dispatch.tla', 'MC_Dispatch_quick.cfg', coverage=thorough, timeout=900)
+        # (TLC's -coverage was read once by hand, see design/C09.md: it needs > 14 GB on this spec; vacuity is
+        #  re-checked on every run from the action labels of the simulated behaviours, step 3)
+        r = ctx.tlc_expect_ok(D, 'MC_Dispatch.tla', 'MC_Dispatch_quick.cfg', timeout=900, heap=MC_HEAP)
         ctx.log('MC_Dispatch_quick (intended design, cross-kernel batches): %d distinct states, depth %d' % (r.distinct, r.depth))
-        if thorough:
-            ctx.cov['coverage_zero_actions'] = r.coverage_zero()
-            if ctx.cov['coverage_zero_actions']:
-                raise vlib.Infra('actions never taken in MC_Dispatch_quick: %s' % ctx.cov['coverage_zero_actions'])
-        r = ctx.tlc_expect_ok(D, 'MC_Dispatch.tla', 'MC_Dispatch_live.cfg', timeout=900)
+        r = ctx.tlc_expect_ok(D, 'MC_Dispatch.tla', 'MC_Dispatch_live.cfg', timeout=900, heap=MC_HEAP)
         ctx.log('MC_Dispatch_live (EveryKernelCompletes under fair CUs/driver): %d distinct states' % r.distinct)
     if thorough and not nomc:
         for cfg in ['MC_Dispatch.cfg', 'MC_Dispatch_asimpl.cfg', 'MC_Dispatch_greedy.cfg', 'MC_Dispatch_partition.cfg',
                     'MC_Dispatch_3cu.cfg']:
-            r = ctx.tlc_expect_ok(D, 'MC_Dispatch.tla', cfg, workers=vlib.NCPU, timeout=3000)
+            r = ctx.tlc_expect_ok(D, 'MC_Dispatch.tla', cfg, workers=8, timeout=3000, heap='6g')
             ctx.log('%s: %d distinct states, depth %d' % (cfg, r.distinct, r.depth))
         ctx.cov['exhaustive'] = True
 
     # 2. the model with the as-implemented deviation: TLC must find the panic; the counterexample is a lead
     #    that only counts if the real CP reproduces it (step 3)
-    lead = ctx.tlc(D, 'DispatchScen.tla', 'DispatchScen_lead.cfg', workers=1, timeout=600, kind='lead')
+    lead = ctx.tlc(D, 'DispatchScen.tla', 'DispatchScen_lead.cfg', workers=1, timeout=600, kind='lead', heap='2g')
     if 'NoPanic' not in lead.violated:
         raise vlib.Infra('as-implemented model no longer yields the mixed-batch counterexample:\n' + lead.out[-1500:])
     ce = [st for _, st in lead.counterexample()]
@@ -301,7 +344,18 @@ def run(ctx, selftest=False):
 
     # 3. spec -> code: behaviours as scenarios
     nsim = 300 if thorough else 40
-    behs, _ = ctx.simulate(D, 'DispatchScen.tla', 'DispatchScen.cfg', num=nsim, depth=70, timeout=1500)
+    behs = simulate(ctx, D, 'DispatchScen.tla', 'DispatchScen.cfg', num=nsim, depth=70, timeout=1500)
+    seen = {}
+    for b in behs:
+        for st in b[1:]:
+            a = st.get('act', {})
+            lab = a.get('a', '?') + ('/' + a['e'] if 'e' in a else '')
+            seen[lab] = seen.get(lab, 0) + 1
+    ctx.cov['actions_in_simulated_behaviours'] = seen
+    missing = [x for x in ('Await/Start', 'Internal', 'Await/MapWG', 'Await/Consume', 'Await/Rsp', 'EnvLaunch',
+                           'EnvTakeMap', 'EnvComplete', 'EnvTakeRsp') if not seen.get(x)]
+    if missing:
+        raise vlib.Infra('actions never taken in %d simulated behaviours: %s' % (len(behs), missing))
     scen = [scenario_of(b, 2 + i % 2, i) for i, b in enumerate(behs)]
     sfile = os.path.join(ctx.scratch, 'scen.json')
     json.dump(scen, open(sfile, 'w'))
@@ -341,6 +395,15 @@ def run(ctx, selftest=False):
     ctx.log('real emulation CUs: %s' % st4)
     parts += validate(ctx, t4, {'cmd': 'c09', 'args': args4})
 
+    # 5a. many CUs of the shipped shape, kernels of hundreds of work-groups (thorough only: the ledger states are large)
+    st6 = {}
+    if thorough:
+        t6 = os.path.join(ctx.scratch, 'trace_big.ndjson')
+        args6 = ['-big', 2, '-seed', ctx.seed]
+        st6 = drive(ctx, drv, args6, t6)
+        ctx.log('16-64 CUs, kernels of 100-1500 work-groups: %s' % st6)
+        parts += validate(ctx, t6, {'cmd': 'c09', 'args': args6})
+
     # 5b. greedy / partition placement (only with the verif hook fixes/C09-hook-dispatch-alg.diff in the tree)
     st5 = {}
     drvh = build_with_hook(ctx)
@@ -358,17 +421,22 @@ def run(ctx, selftest=False):
     distinct = {key(recs) for _, recs in parts}
     nt = len({key(recs) for _, recs in parts if nontrivial(recs)})
     ctx.sample({'trace_excerpt': parts[len(behs) + 2][1][:12] if len(parts) > len(behs) + 2 else parts[-1][1][:12]})
-    events = sum(s['events'] for s in (st0, st1, st2, st3, st4))
+    events = sum(s.get('events', 0) for s in (st0, st1, st2, st3, st4, st5, st6))
     ctx.cov.update({'evaluations': len(parts), 'distinct_nontrivial': nt, 'distinct_traces': len(distinct), 'events_validated': events,
-                    'map_requests_checked': sum(s.get('ev_MapWG', 0) for s in (st0, st1, st2, st3, st4)),
+                    'map_requests_checked': sum(s.get('ev_MapWG', 0) for s in (st0, st1, st2, st3, st4, st5, st6)),
                     'full_cu_probes': st1.get('probes', 0) + st2.get('probes', 0),
                     'scenario_steps': {'done': st1.get('steps_done', 0), 'skipped': st1.get('steps_skipped', 0)},
                     'model_lead': {'violated': lead.violated, 'length': len(ce),
                                    'real_cp_panicked': st0.get('ev_Panic', 0) > 0}})
 
+    ctx.cov['first_fit_conformance'] = dict(ff)
+    if ff['conforming'] != ff['examined']:
+        ctx.notes.append('model fidelity: %d of %d map requests do not carry the first-fit offsets of CUResource.tla '
+                         '(placement policy differs from the design model; not a verdict)' % (
+                             ff['examined'] - ff['conforming'], ff['examined']))
     # a run the driver had to cut off (the CP never went idle) whose recorded prefix was nevertheless accepted
     # is not a verdict
-    cut = sum(s.get('incomplete', 0) for s in (st0, st1, st2, st3, st4, st5))
+    cut = sum(s.get('incomplete', 0) for s in (st0, st1, st2, st3, st4, st5, st6))
     if cut and not ctx.violations:
         raise vlib.Infra('%d runs were cut off by the driver (CP never idle) without a rejected trace' % cut)
 
